@@ -29,6 +29,7 @@ TECHNIQUE = "deterministic simulation, seeded transfer schedules with injected t
 VOLUMES = [0, 0.5, 1, 1, 2, 3, 4, 6, 8]
 STARTS = [0, 0, 0.25, 0.5, 1, 1, 2, 3, 4]
 INF = math.inf
+EPS = Fraction(1, 10 ** 12)
 
 
 def generate(rng, tier):
@@ -47,6 +48,21 @@ def generate(rng, tier):
             serial += 1
             ops.append({"op": "transfer", "on": "P", "id": "x%d" % serial,
                         "total": rng.choice(VOLUMES), "tp": rng.choice(limits)})
+            if kind == "pipe" and tp != "inf" and rng.random() < 0.15 and not start \
+                    and len(ops) == 1:
+                # (only as an activity's first transfer at time 0: started an ulp before another
+                # transfer's completion it would starve that one's last 1e-15 of volume for its
+                # whole duration - rounding amplified by 18 orders of magnitude, not a finding)
+                # a practically unlimited transfer (limit 2**60) next to ordinary ones: sums of
+                # limits in which the small ones are absorbed by float rounding
+                ops[-1]["tp"] = 2.0 ** 60
+                ops[-1]["total"] = rng.choice([0.5, 1, 2])
+            r2 = rng.random()
+            if r2 < 0.1:
+                ops[-1]["defer"] = [{"op": "sleep", "d": rng.choice([0.25, 0.5, 1, 2])}]
+            elif r2 < 0.14:
+                ops[-1]["abandon"] = True
+                ops[-1]["defer"] = [{"op": "postpone", "k": 1}] if rng.random() < 0.5 else []
             if rng.random() < 0.3:
                 ops.append({"op": "postpone", "k": 1})
         ops.append({"op": "now"})
@@ -97,7 +113,10 @@ def fluid(throughput, jobs):
         # departures and zero-volume completions at `now`
         for job in list(active):
             start, volume, limit, depart = jobs[job]
-            if remaining[job] == 0:
+            if remaining[job] <= EPS * max(volume, 1):
+                # (observed instants are floats: a start that is "the same moment" as a
+                # completion may lie an ulp before it; what is left then is rounding, not work -
+                # it matters once limits differ by many orders of magnitude)
                 done[job] = now
                 active.remove(job)
             elif depart is not None and depart <= now:
